@@ -696,11 +696,13 @@ Definition run_accessors (pre : list item) (gs : list group) (mname ename : opti
 
 (* ---- what the template classes ACCEPT: the argument checks of the constructors ---------------------------------- *)
 (* content.py ReferencedSegment.__init__ / VolumeSurface.__init__:
-     if source_images is not None: (append each)  elif source_series is not None: (append)  else: raise ValueError
-   - an EMPTY source_images sequence passes and writes no source item. *)
+     if source_images is not None: (empty -> ValueError; append each)  elif source_series is not None: (append)
+     else: raise ValueError
+   (an empty source_images sequence is refused before source_series is looked at - fix D107) *)
 Inductive src_arg := SrcArg (images : option (list (Z * Z))) (series : option Z).
 Definition construct_sources (a : src_arg) : res sources :=
   match a with
+  | SrcArg (Some []) _ => Err "ValueError"%string
   | SrcArg (Some l) _ => Ok (SrcImages l)
   | SrcArg None (Some u) => Ok (SrcSeries u)
   | SrcArg None None => Err "ValueError"%string
@@ -718,10 +720,10 @@ Inductive ospec :=
 | SpRegion2D (gt cls inst : Z) | SpRegion3D (gt : Z) | SpSegFrame (cls inst scls sinst : Z)
 | SpSegment (cls inst : Z) (a : src_arg) | SpSurface (gt : Z) (n : nat) (a : src_arg) | SpOther.
 
-(* VolumeSurface.__init__: ELLIPSOID / POINT take at most one graphic data item, ELLIPSE / POLYGON at least two,
-   other graphic types are refused (an EMPTY graphic data list passes for ELLIPSOID / POINT) *)
+(* VolumeSurface.__init__: ELLIPSOID / POINT take exactly one graphic data item, ELLIPSE / POLYGON at least two,
+   other graphic types are refused *)
 Definition surface_count_check (gt : Z) (n : nat) : res unit :=
-  if (gt =? 6) || (gt =? 1) then (if 1 <? Z.of_nat n then Err "ValueError"%string else Ok tt)
+  if (gt =? 6) || (gt =? 1) then (if Z.of_nat n =? 1 then Ok tt else Err "ValueError"%string)
   else if (gt =? 5) || (gt =? 4) then (if Z.of_nat n <? 2 then Err "ValueError"%string else Ok tt)
   else Err "ValueError"%string.
 
